@@ -330,6 +330,18 @@ func validEncodings(t *rapid.T) [][]byte {
 			out = append(out, sb[17:len(sb)-2])
 		}
 	}
+	// serial packets of the other subjects the serial client handles; "log" packets carry text and no check sum,
+	// and every subject may come with an empty payload
+	subj := rapid.SampledFrom([]string{"log", "log", "ack", "phr", "", "p.abc", "0123456789abcdef"}).Draw(t, "serialSubject")
+	if subj == "log" {
+		hdr := make([]byte, 17)
+		hdr[0] = byte(len(ps))
+		copy(hdr[1:], subj)
+		txt := rapid.SliceOfN(rapid.SampledFrom([]byte{0, 'a', '\n', 0xff}), 0, 6).Draw(t, "logText")
+		out = append(out, append(hdr, txt...))
+	} else if sb, err := client.SerialEncode(byte(len(ps)), subj, nil); err == nil {
+		out = append(out, sb)
+	}
 	hr := make([]byte, 48+4*len(ps))
 	copy(hr, "temp")
 	out = append(out, hr)
